@@ -24,10 +24,17 @@ import (
 func init() {
 	core.Register(&core.Property{
 		ID:   "C19",
-		Rule: "all 146 resource type names x ids/versions over the FHIR id alphabet (length 1..64, plus empty, 65 and illegal characters) x service base URLs {none, http/https, port, nested path, trailing slash} x forms {relative, versioned, absolute, fragment, '#', URN uuid/oid, canonical with |version and #fragment, ''} and byte-mutated neighbours: format->parse returns the components; parse->format->parse is a fixpoint (identical to the input without redundant slashes); rejected strings give errors, never a panic; strong (typed) and weak (uri) references naming one resource give equal LiteralInfo/Identity, reference.Is = true and the same FHIRPath `reference` string; weak references carrying Reference.type (consistent, inconsistent, absent; on REST URLs, URNs and fragments) parsed in sequence on one uri with the bare string re-parsed in between (what is parsed from a reference depends on that reference alone); Is is reflexive/symmetric/transitive on generated triples; canonical url|version#fragment splits and reassembles unchanged. distinct_nontrivial = distinct (form, type, base-url class, id class, version present) cases",
+		Rule: "all 146 resource type names x ids/versions over the FHIR id alphabet (length 1..64, plus empty, 65 and illegal characters) x service base URLs {none, http/https, port, nested path, trailing slash} x forms {relative, versioned, absolute, fragment, '#', URN uuid/oid, canonical with |version and #fragment, ''} and byte-mutated neighbours: format->parse returns the components; parse->format->parse is a fixpoint (identical to the input without redundant slashes); rejected strings give errors, never a panic; strong (typed) and weak (uri) references naming one resource give equal LiteralInfo/Identity, reference.Is = true and the same FHIRPath `reference` string; weak references carrying Reference.type (consistent, inconsistent, absent; on REST URLs, URNs and fragments) parsed in sequence on one uri with the bare string re-parsed in between (what is parsed from a reference depends on that reference alone); Is is reflexive/symmetric/transitive on generated triples; canonical url|version#fragment splits and reassembles unchanged. fragment references read through the FHIRPath `reference` element; distinct_nontrivial = distinct (form, type, base-url class, id class, version present) cases",
 		Assumptions: []string{"an absolute URL whose path does not match Type/id[/_history/v] may be accepted as a non-REST URI or rejected; it must never yield an identity"},
 		Run:    runC19,
-		Checks: map[string]func(*core.Env, []json.RawMessage){"uri": replayC19URI, "ref": replayC19Ref, "canon": replayC19Canon, "weak": replayC19Weak, "fragread": func(env *core.Env, a []json.RawMessage) {
+		Checks: map[string]func(*core.Env, []json.RawMessage){"uri": replayC19URI, "ref": replayC19Ref, "canon": replayC19Canon, "weak": replayC19Weak, "ctor": func(env *core.Env, a []json.RawMessage) {
+			var tn, id, ver, base string
+			json.Unmarshal(a[0], &tn)
+			json.Unmarshal(a[1], &id)
+			json.Unmarshal(a[2], &ver)
+			json.Unmarshal(a[3], &base)
+			c19Constructors(env, tn, id, ver, base)
+		}, "fragread": func(env *core.Env, a []json.RawMessage) {
 			var f string
 			json.Unmarshal(a[0], &f)
 			c19FragmentRead(env, f)
@@ -509,6 +516,175 @@ func c19FragmentRead(env *core.Env, frag string) {
 	}
 }
 
+// c19Constructors: the formatting direction through every constructor, parsed back.
+func c19Constructors(env *core.Env, tn, id, ver, base string) {
+	defer env.In("ctor", tn, id, ver, base)()
+	env.Case()
+	env.Cover("constructors")
+	rel := tn + "/" + id
+	relv := rel
+	if ver != "" {
+		relv = rel + "/_history/" + ver
+	}
+	bad := func(sig, format string, a ...any) { env.Violatef("C19/constructors/"+sig, "%s: "+format, append([]any{relv}, a...)...) }
+	out := env.Guard("constructors "+relv, func() {
+		ident, err := resource.NewIdentity(tn, id, ver)
+		if err != nil || ident == nil {
+			bad("new-identity", "NewIdentity(%q, %q, %q): %v", tn, id, ver, err)
+			return
+		}
+		plain, _ := resource.NewIdentity(tn, id, "")
+		// components and formats
+		gv, hasV := ident.VersionID()
+		if string(ident.Type()) != tn || ident.ID() != id || gv != ver || hasV != (ver != "") {
+			bad("components", "Type %q ID %q VersionID %q,%v", ident.Type(), ident.ID(), gv, hasV)
+		}
+		rv, okv := ident.RelativeVersionedURIString()
+		rvu, okvu := ident.RelativeVersionedURI()
+		if ident.RelativeURIString() != rel || ident.RelativeURI().GetValue() != rel || okv != (ver != "") || okvu != okv || (okv && (rv != relv || rvu.GetValue() != relv)) || (!okv && (rv != "" || rvu != nil)) ||
+			ident.PreferRelativeVersionedURIString() != relv || ident.PreferRelativeVersionedURI().GetValue() != relv || ident.String() != relv {
+			bad("format", "RelativeURIString %q RelativeVersionedURIString %q,%v PreferRelativeVersionedURIString %q String %q", ident.RelativeURIString(), rv, okv, ident.PreferRelativeVersionedURIString(), ident.String())
+		}
+		// derived identities; the original is not changed by deriving
+		u := ident.Unversioned()
+		w := ident.WithNewVersion("v2")
+		wv, _ := w.VersionID()
+		if _, has := u.VersionID(); has || !u.Equal(plain) || wv != "v2" || w.ID() != id || string(w.Type()) != tn || ident.String() != relv || !ident.Equal(ident) || (ver != "" && (ident.Equal(u) || u.Equal(ident))) || ident.Equal(w) {
+			bad("derived", "Unversioned %s, WithNewVersion(v2) %s, original afterwards %s", u, w, ident)
+		}
+		if w2 := w.WithNewVersion(ver); !w2.Equal(ident) {
+			bad("derived", "WithNewVersion(v2).WithNewVersion(%q) = %s", ver, w2)
+		}
+		// parsed back by every parser
+		urls := []string{relv}
+		if base != "" {
+			urls = append(urls, base+"/"+relv)
+		}
+		for _, url := range urls {
+			if got, err := reference.IdentityFromURL(url); err != nil || !got.Equal(ident) {
+				bad("parse-back/IdentityFromURL", "IdentityFromURL(%q) = %s, %v", url, got, err)
+			}
+			if url == relv {
+				if got, err := reference.IdentityFromRelativeURI(url); err != nil || !got.Equal(ident) {
+					bad("parse-back/IdentityFromRelativeURI", "IdentityFromRelativeURI(%q) = %s, %v", url, got, err)
+				}
+				if _, err := reference.IdentityFromAbsoluteURL(url); err == nil {
+					bad("parse-back/IdentityFromAbsoluteURL", "IdentityFromAbsoluteURL(%q) accepts a relative reference", url)
+				}
+			} else {
+				if got, err := reference.IdentityFromAbsoluteURL(url); err != nil || !got.Equal(ident) {
+					bad("parse-back/IdentityFromAbsoluteURL", "IdentityFromAbsoluteURL(%q) = %s, %v", url, got, err)
+				}
+				if ver != "" {
+					if got, err := resource.NewIdentityFromHistoryURL(url); err != nil || !got.Equal(ident) {
+						bad("parse-back/NewIdentityFromHistoryURL", "NewIdentityFromHistoryURL(%q) = %s, %v", url, got, err)
+					}
+				}
+			}
+			if ver == "" {
+				if got, err := resource.NewIdentityFromURL(url); err != nil || !got.Equal(ident) {
+					bad("parse-back/NewIdentityFromURL", "NewIdentityFromURL(%q) = %s, %v", url, got, err)
+				}
+			}
+		}
+		// references built from the identity
+		strong := reference.TypedFromIdentity(ident)
+		if got, err := reference.IdentityOf(strong); err != nil || !got.Equal(ident) || strong.GetUri() != nil {
+			bad("typed-from-identity", "IdentityOf(TypedFromIdentity(%s)) = %s, %v (uri member %v)", ident, got, err, strong.GetUri())
+		}
+		if lit, err := reference.LiteralInfoOf(strong); err != nil || lit.URIString() != relv || lit.PreferRelativeVersionedURIString() != relv {
+			bad("typed-from-identity", "LiteralInfoOf(TypedFromIdentity(%s)) formats %v, %v", ident, lit, err)
+		}
+		weak := reference.Weak(resource.Type(tn), relv)
+		if got, err := reference.IdentityOf(weak); err != nil || !got.Equal(ident) || weak.GetType().GetValue() != tn || weak.GetUri().GetValue() != relv {
+			bad("weak", "IdentityOf(Weak(%s, %q)) = %s, %v; type %q uri %q", tn, relv, got, err, weak.GetType().GetValue(), weak.GetUri().GetValue())
+		}
+		if !reference.Is(weak, strong) || !reference.Is(strong, weak) {
+			bad("weak", "Is(Weak, TypedFromIdentity) = %v / %v", reference.Is(weak, strong), reference.Is(strong, weak))
+		}
+		// the same through a resource
+		res := resource.New(resource.Type(tn))
+		setID := func(m protoreflect.Message, field, val string) {
+			fd := m.Descriptor().Fields().ByName(protoreflect.Name(field))
+			idm := m.Mutable(fd).Message()
+			idm.Set(idm.Descriptor().Fields().ByName("value"), protoreflect.ValueOfString(val))
+		}
+		rm := res.ProtoReflect()
+		if _, ok := resource.IdentityOf(res); ok {
+			bad("identity-of-resource", "a resource without id has an identity")
+		}
+		if _, err := reference.WeakRelativeVersioned(res); !errors.Is(err, reference.ErrNoResourceID) {
+			bad("weak-relative-versioned", "resource without id: %v", err)
+		}
+		setID(rm, "id", id)
+		if ver != "" {
+			meta := rm.Mutable(rm.Descriptor().Fields().ByName("meta")).Message()
+			setID(meta, "version_id", ver)
+		}
+		if got, ok := resource.IdentityOf(res); !ok || !got.Equal(ident) {
+			bad("identity-of-resource", "IdentityOf(resource) = %s, %v", got, ok)
+		}
+		if tr, err := reference.TypedFromResource(res); err != nil {
+			bad("typed-from-resource", "TypedFromResource: %v", err)
+		} else if got, err := reference.IdentityOf(tr); err != nil || !got.Equal(plain) {
+			bad("typed-from-resource", "IdentityOf(TypedFromResource) = %s, %v", got, err)
+		}
+		wr, err := reference.WeakRelativeVersioned(res)
+		switch {
+		case ver == "" && !errors.Is(err, reference.ErrNoResourceVersion):
+			bad("weak-relative-versioned", "resource without version: %v, %v", wr, err)
+		case ver != "" && (err != nil || wr.GetUri().GetValue() != relv || wr.GetType().GetValue() != tn):
+			bad("weak-relative-versioned", "WeakRelativeVersioned = uri %q type %q, %v", wr.GetUri().GetValue(), wr.GetType().GetValue(), err)
+		}
+		// logical references: same type + identifier is the same reference, another value is not
+		l1 := reference.Logical(resource.Type(tn), "http://s", id)
+		l2 := reference.LogicalFromIdentifier(resource.Type(tn), &dtpb.Identifier{System: &dtpb.Uri{Value: "http://s"}, Value: &dtpb.String{Value: id}})
+		l3 := reference.Logical(resource.Type(tn), "http://s", id+"x")
+		if l1.GetType().GetValue() != tn || l1.GetIdentifier().GetValue().GetValue() != id || l1.GetIdentifier().GetSystem().GetValue() != "http://s" || !reference.Is(l1, l2) || !reference.Is(l2, l1) || reference.Is(l1, l3) {
+			bad("logical", "Logical = %v; Is(l1,l2) %v Is(l1,other) %v", l1, reference.Is(l1, l2), reference.Is(l1, l3))
+		}
+		// canonical resources
+		cr, isCanon := res.(fhir.CanonicalResource)
+		cref, cerr := reference.Canonical(resource.Type(tn), "http://c.example/"+rel)
+		if isCanon != (cerr == nil) || (cerr == nil && (cref.GetUri().GetValue() != "http://c.example/"+rel || cref.GetType().GetValue() != tn)) || (cerr != nil && !errors.Is(cerr, reference.ErrNotCanonicalResource)) {
+			bad("canonical-reference", "reference.Canonical on %s (canonical resource: %v) = %v, %v", tn, isCanon, cref, cerr)
+		}
+		if isCanon {
+			env.Cover("canonical-resource")
+			if _, err := canonical.FromResource(cr); !errors.Is(err, canonical.ErrNoCanonicalURL) {
+				bad("canonical-from-resource", "resource without url: %v", err)
+			}
+			url := "http://c.example/" + rel
+			setID(rm, "url", url)
+			if ver != "" {
+				setID(rm, "version", ver)
+			}
+			want := url
+			if ver != "" {
+				want = url + "|" + ver
+			}
+			c1, e1 := canonical.FromResource(cr)
+			c2, e2 := canonical.VersionedFromResource(cr)
+			c3, e3 := canonical.FragmentFromResource(cr)
+			ci, e4 := canonical.IdentityOf(cr)
+			if e1 != nil || e2 != nil || e3 != nil || e4 != nil || c1.GetValue() != url || c2.GetValue() != want || c3.GetValue() != url+"#"+id || ci.Url != url || ci.Version != ver || ci.Fragment != "" {
+				bad("canonical-from-resource", "FromResource %q VersionedFromResource %q FragmentFromResource %q IdentityOf %+v (%v %v %v %v)", c1.GetValue(), c2.GetValue(), c3.GetValue(), ci, e1, e2, e3, e4)
+			} else {
+				for _, c := range []*dtpb.Canonical{c1, c2, c3} {
+					back, err := canonical.IdentityFromReference(c)
+					if err != nil || canonical.New(back.Url, canonical.WithVersion(back.Version), canonical.WithFragment(back.Fragment)).GetValue() != c.GetValue() {
+						bad("canonical-from-resource", "%q does not split and reassemble: %+v, %v", c.GetValue(), back, err)
+					}
+				}
+			}
+		}
+	})
+	env.Eval(30)
+	if out.Panicked || out.Dead {
+		env.Violatef("C19/panic@"+out.Site+"/constructors", "constructors for %s panicked: %s", relv, out.PanicMsg)
+	}
+}
+
 func c19ID(r *core.Rng, n int) string {
 	const al = "ABCDEFGHIJKLMNOPQRSTUVWXYZabcdefghijklmnopqrstuvwxyz0123456789-."
 	b := make([]byte, n)
@@ -561,6 +737,9 @@ func runC19(env *core.Env) {
 			}
 			if mine() {
 				c19Ref(env, tn, id, ver)
+			}
+			if mine() {
+				c19Constructors(env, tn, id, ver, base)
 			}
 			// invalid ids
 			for _, bad := range []string{"", c19ID(rng, 65), "a_b", "a b", "é", "a/b"} {
